@@ -62,6 +62,22 @@ def run(ctx):
         mh, mouts = core.parse_model_run(l)
         if mouts[-1:] != ["str:" + core.show(kb)]:
             diffs.append({"op": "wrap", "impl": kb[:80], "model": mouts[-1][:80]})
+    # derivation of the fill from the OS bytes: the monitor compared every call with a mirror of Model/Entropy.v (format 3)
+    # and with "pad = tape verbatim" (format 4, TR-31); a sample of its format 3 records goes through the extracted model
+    if mon and "derivation" in mon:
+        der = mon["derivation"]
+        for m_ in der["mismatch"]:
+            diffs.append({"derivation": m_["what"], "detail": {k: str(v)[:120] for k, v in m_.items() if k != "what"}})
+        recs = der["format3"]
+        dl = ["draw " + core.show(bytes(st)) + " %d" % n_ for st, n_, _ in recs]
+        for (st, n_, fill), got in zip(recs, core.run_model(dl)):
+            want = "OK " + core.show(bytes(x - 10 for x in fill))
+            if not got.startswith(want + " ") and got != want + " -":
+                diffs.append({"derivation": "extracted model draw disagrees with the fill psec produced", "request": "draw", "os_bytes": bytes(st).hex(),
+                              "impl_fill": fill, "model": got[:80]})
+        if mon.get("stats") is not None:
+            mon["stats"]["derivation_checked"] = der["checked"]
+            mon["stats"]["derivation_through_extracted_model"] = len(recs)
     calls = (mon or {}).get("calls", 0)
     if mon:
         samples.append({"monitor_stats": mon["stats"], "hoeffding_eps": mon["eps"]})
